@@ -150,12 +150,16 @@ Definition explain_ipf (pinned : quirks) (c : ipf_case) :=
 (** * group mux *)
 
 Record mux_case := {
-  mc_server : mserver;
-  mc_reqs : list mreq;               (* rq_hit = cache.Contains(key) observed on the cached instance *)
+  mc_gens : list mserver;            (* generation 0 = the initial spec; reload steps name a generation *)
+  mc_steps : list mstep;             (* rq_hit = cache.Contains(key) observed on the cached instance *)
   mc_obs_on : list (N * N);          (* (status, backend id invoked or 0), instance with cacheSize > 0 *)
   mc_obs_off : list (N * N);         (* same server, cacheSize 0 *)
   mc_obs_twin : list (N * N)         (* all filters erased, cacheSize 0 *)
 }.
+
+Definition mc_server (c : mux_case) : mserver := nth 0 (mc_gens c) {| ms_filter := None; ms_rules := [] |}.
+Definition mc_reqs (c : mux_case) : list mreq := map snd (mc_steps c).
+Definition mc_cur (c : mux_case) : list mserver := servers_of (mc_gens c) (mc_server c) (mc_steps c).
 
 Definition is4xx (c : N) : bool := (400 <=? c) && (c <? 500).
 
@@ -195,7 +199,7 @@ Fixpoint prop_all (ds : list bool) (tw os : list (N * N)) : bool :=
   end.
 
 Definition denied_list (c : mux_case) : list bool :=
-  map (fun r => denied ideal (mc_server c) r) (mc_reqs c).
+  map (fun '(s, r) => denied ideal s r) (combine (mc_cur c) (mc_reqs c)).
 
 Definition prop_mux (c : mux_case) : bool :=
   let ds := denied_list c in
@@ -203,6 +207,19 @@ Definition prop_mux (c : mux_case) : bool :=
 
 Definition with_hit_flag (q : quirks) (b : bool) : quirks :=
   {| q_mapped_entry_dead := q_mapped_entry_dead q; q_hit_skips_visited_rules := b |}.
+
+Definition has_reload (c : mux_case) : bool :=
+  existsb (fun st => match fst st with Some _ => true | None => false end) (mc_steps c).
+
+(** a request denied right after a reload on a key that was cached before the reload *)
+Fixpoint denied_after_reload (ds : list bool) (steps : list mstep) (seen : list N) (armed : list N) : bool :=
+  match ds, steps with
+  | d :: ds', (rl, r) :: t =>
+      let armed' := match rl with Some _ => seen ++ armed | None => armed end in
+      (d && existsb (N.eqb (rq_key r)) armed') ||
+      denied_after_reload ds' t (rq_key r :: seen) armed'
+  | _, _ => false
+  end.
 
 Definition class_mux (c : mux_case) : N :=
   match mc_reqs c with
@@ -214,29 +231,36 @@ Definition class_mux (c : mux_case) : N :=
       let dn := existsb (fun '(d, t) => d && negb (route_exists t)) (combine ds (mc_obs_twin c)) in
       1 + bN (existsb id ds) 1 + bN (existsb rq_hit rs) 2 + bN dh 4 + bN dr 8 + bN dn 16
         + bN (existsb (fun t => snd t =? 0) (mc_obs_twin c) && existsb (fun t => negb (snd t =? 0)) (mc_obs_twin c)) 32
+        + bN (has_reload c) 64 + bN (denied_after_reload ds (mc_steps c) [] []) 128
   end.
 
+Definition model_off (q : quirks) (c : mux_case) : list (N * N) :=
+  map (fun '(s, r) => serve s (search_nocache q s r)) (combine (mc_cur c) (mc_reqs c)).
+
+Definition model_twin (q : quirks) (c : mux_case) : list (N * N) :=
+  map (fun '(s, r) => serve (erase s) (search_nocache q (erase s) r)) (combine (mc_cur c) (mc_reqs c)).
+
+Definition model_on (q : quirks) (c : mux_case) : list (N * N) :=
+  run_steps q (mc_gens c) (mc_server c) [] (mc_steps c).
+
 Definition check_mux (pinned : quirks) (c : mux_case) : result :=
-  let s := mc_server c in
-  let rs := mc_reqs c in
   let ds := denied_list c in
   let tw := mc_obs_twin c in
-  let wf := forallb (fun r => wf_bits (ms_rules s) (rq_m r)) rs in
+  let wf := forallb (fun '(s, r) => wf_bits (ms_rules s) (rq_m r)) (combine (mc_cur c) (mc_reqs c)) &&
+            negb (Nat.eqb (List.length (mc_gens c)) 0) in
   let corr :=
     wf &&
-    list_eqb Neqb_pair (run_nocache pinned (erase s) rs) tw &&
-    obs_agree_all ds tw (run_nocache pinned s rs) (mc_obs_off c) &&
-    obs_agree_all ds tw (run pinned s [] rs) (mc_obs_on c) in
+    list_eqb Neqb_pair (model_twin pinned c) tw &&
+    obs_agree_all ds tw (model_off pinned c) (mc_obs_off c) &&
+    obs_agree_all ds tw (model_on pinned c) (mc_obs_on c) in
   let prop := prop_mux c in
   let off := with_hit_flag pinned false in
   let attrib :=
     if negb prop && corr && q_hit_skips_visited_rules pinned &&
-       prop_all ds tw (run off s [] rs) && prop_all ds tw (run_nocache off s rs)
+       prop_all ds tw (model_on off c) && prop_all ds tw (model_off off c)
     then 52 else 0 in
   (corr, prop, class_mux c, attrib).
 
 Definition explain_mux (pinned : quirks) (c : mux_case) :=
-  let s := mc_server c in
   (* (denied per request, cache on, cache off, erased twin) *)
-  (denied_list c, run pinned s [] (mc_reqs c), run_nocache pinned s (mc_reqs c),
-   run_nocache pinned (erase s) (mc_reqs c)).
+  (denied_list c, model_on pinned c, model_off pinned c, model_twin pinned c).
